@@ -5141,7 +5141,7 @@ impl GlobalInferenceCtx<'_> {
             Expr::Member {
                 previous,
                 name: field,
-            } => match self.tys[self.loc][*previous].as_ref() {
+            } => match self.tys[loc][*previous].as_ref() {
                 Ty::File(file) => {
                     let ufqn = Fqn {
                         file: *file,
